@@ -218,7 +218,7 @@ def run_real(scen, workdir, rng=None):
                     cv = CVise(tm, False)
                     cv.tidy = cfg.get('tidy', False)
                     grp = {k: [passes[i] for i in scen['groups'].get(k, [])] for k in ('first', 'main', 'last')}
-                    cv.reduce(grp, False)
+                    cv.reduce(grp, scen.get('skipInitial', False))
             except BaseException as e:  # noqa
                 name = type(e).__name__
                 obs['outcome'] = {'Foreign': 'ForeignError'}.get(name, name)
@@ -298,12 +298,17 @@ def model_line(scen, obs, joint_key):
         aos = ','.join(f"{k.replace('.', ':')}:{v}" for k, v in p['aos'].items()) or '-'
         tr = ','.join(f"{k.replace('.', ':')}:{v[0]}:{v[1]}:{v[2]}" for k, v in p['tr'].items()) or '-'
         fmt = ','.join(f"{k}:{':'.join(map(str, v))}" for k, v in p.get('fmt', {}).items() if v) or '-'
-        ps.append(f"key={keys[i]};maxT={on(p.get('maxT'))};new={new};adv={adv};aos={aos};tr={tr};fmt={fmt};bail={b(p.get('bail', False))}")
+        ps.append(f"key={keys[i]};maxT={on(p.get('maxT'))};new={new};adv={adv};aos={aos};tr={tr};fmt={fmt};bail={b(p.get('bail', False))};avail={b(p.get('prereq', True))}")
     groups = ';'.join(f"{k}={','.join(map(str, scen['groups'].get(k, []))) or '-'}" for k in ('first', 'main', 'last'))
     test = ';'.join(f"{k or '-'}:{v}" for k, v in scen['test'].items()) or '-'
     faults = ';'.join(f'{k}:{fault_tok(v)}' for k, v in scen.get('faults', {}).items()) or '-'
     sched = ';'.join(f'{k}:{dots(v)}' for k, v in obs['played'].items()) or '-'
-    return (f"drv mode={scen.get('mode', 'reduce')}|cfg={cfgs}|sizes={','.join(str(len(t.encode())) for t in scen['texts'])}"
+    # --start-with-pass: the model gets the key of the pass whose repr() equals the option (a name no pass carries: a key no pass has)
+    sw = 'N'
+    if cfg.get('startWith'):
+        reprs = [f"TablePass::{p['name']}" + (f" ({p['maxT']} T)" if p.get('maxT') is not None else '') for p in scen['passes']]
+        sw = str(keys[reprs.index(cfg['startWith'])]) if cfg['startWith'] in reprs else '999999'
+    return (f"drv mode={scen.get('mode', 'reduce')}|sw={sw}|skipInitial={b(scen.get('skipInitial', False))}|cfg={cfgs}|sizes={','.join(str(len(t.encode())) for t in scen['texts'])}"
             f"|disk={','.join(map(str, scen['disk']))}|perm={','.join(map(str, obs['perm']))}|passes={'/'.join(ps)}|groups={groups}"
             f"|test={test}|faults={faults}|sched={sched}|fuel={scen.get('fuel', 400)}")
 
